@@ -78,9 +78,9 @@ def positionalOK (s : CliSpec) (o : OptSpec) : Bool :=
     mentionCount t o.dest ≥ 1 && directCount t o.dest ≤ 1 && (hasOpaqueArg t || directCount t o.dest == 1))
 
 /-- a positional of a sub-parser of `compose_two_parsers` reaches the calls made when that sub-parser is
-chosen: some call mentions it, no call is given it twice -/
+chosen: some call mentions it (or it selects the path, like the charge of `tseitin`), no call is given it twice -/
 def subPositionalOK (s : CliSpec) (o : OptSpec) : Bool :=
-  (callTemplates s).any (fun t => mentionCount t o.dest ≥ 1) &&
+  ((callTemplates s).any (fun t => mentionCount t o.dest ≥ 1) || (guardDeps s).contains o.dest) &&
   (callTemplates s).all (fun t => directCount t o.dest ≤ 1)
 
 def positionalsOK (s : CliSpec) : Bool :=
